@@ -446,9 +446,9 @@ func (c *c05ctx) positive(v ssa.Value, at ssa.Instruction, depth int) (bool, str
 				var k *ssa.Const
 				op := ca.Op
 				switch {
-				case ca.X == cv:
+				case core.SameValue(ca.X, cv):
 					k, _ = ca.Y.(*ssa.Const)
-				case ca.Y == cv:
+				case core.SameValue(ca.Y, cv):
 					k, _ = ca.X.(*ssa.Const)
 					op = flip(op)
 				default:
@@ -466,19 +466,19 @@ func (c *c05ctx) positive(v ssa.Value, at ssa.Instruction, depth int) (bool, str
 				}
 			case "eq":
 				if !truth {
-					if (ca.X == cv && isZeroConst(ca.Y)) || (ca.Y == cv && isZeroConst(ca.X)) {
+					if (core.SameValue(ca.X, cv) && isZeroConst(ca.Y)) || (core.SameValue(ca.Y, cv) && isZeroConst(ca.X)) {
 						return true
 					}
 				}
 			case "callbool":
-				if ca.Call != nil && !truth && strings.HasSuffix(core.CalleeFullName(ca.Call), ").IsZero") && len(ca.Call.Call.Args) > 0 && ca.Call.Call.Args[0] == cv {
+				if ca.Call != nil && !truth && strings.HasSuffix(core.CalleeFullName(ca.Call), ").IsZero") && len(ca.Call.Call.Args) > 0 && core.SameValue(ca.Call.Call.Args[0], cv) {
 					return true
 				}
 			}
 		}
 		return false
 	}
-	if !core.PathExists(fn, p.PassEdges(fn, g), at, nil) {
+	if !p.ReachesUnguarded(fn, at, g) {
 		return true, "guarded by a sign/zero test on every path"
 	}
 	// (ii)/(iii) provenance
@@ -761,7 +761,7 @@ func c05(r *core.Run) {
 							}
 							return isLen(ca.X) || isLen(ca.Y)
 						}
-						if !core.PathExists(fn, p.PassEdges(fn, g), x, nil) {
+						if !p.ReachesUnguarded(fn, x, g) {
 							okI, why = true, "behind a length test"
 						}
 					}
